@@ -14,6 +14,7 @@ use std::cell::Cell;
 use std::collections::{HashMap, VecDeque};
 use std::sync::{Arc, Condvar, Mutex, MutexGuard};
 
+pub mod faults;
 pub mod pathlog;
 pub mod quarantine;
 pub mod remote;
